@@ -513,6 +513,57 @@ def probes(R):
                     f'(the literal is printed with str() into the compiled source)')
 
 
+def helper_scenario(spec, ks, vals, order):
+    """Registered helpers that share their __name__ (closures made by one factory, lambdas), each used inside another registered
+    function; the outer functions are called in the given order (repetitions included) and every call is compared with the plain
+    python function.  Returns the list of failures [(step, label, registered, plain)]."""
+    alg = algs.make_impl(spec)
+    x = oc.make_mv(alg, ks, vals)
+    xp = oc.make_mv(alg, ks[::-1], vals[::-1])          # the same element, blades stored in the opposite order
+
+    def make_scale(k):
+        def scale(v):
+            return k * v
+        return alg.register(scale)
+    s2, s3 = make_scale(2), make_scale(3)
+    sq, cu = alg.register(lambda v: v * v), alg.register(lambda v: v * v * v)
+    plain = {'g2': lambda v: s2(v) + v, 'g3': lambda v: s3(v) + v, 'h2': lambda v: sq(v) - v, 'h3': lambda v: cu(v) - v}
+    def g2(v): return s2(v) + v
+    def g3(v): return s3(v) + v
+    def h2(v): return sq(v) - v
+    def h3(v): return cu(v) - v
+    reg = {'g2': alg.register(g2), 'g3': alg.register(g3), 'h2': alg.register(h2), 'h3': alg.register(h3)}
+    want = {'g2': lambda v: 3 * v, 'g3': lambda v: 4 * v, 'h2': lambda v: v * v - v, 'h3': lambda v: v * v * v - v}
+    fails = []
+    for step, (label, perm) in enumerate(order):
+        arg = xp if perm else x
+        try:
+            got = as_items(reg[label](arg))
+        except Exception as e:  # noqa
+            got = f'{type(e).__name__}: {e}'[:120]
+        exp = as_items(want[label](arg))
+        if isinstance(got, str) or not same_items(exp, got, exact=False):
+            fails.append((step, label, got, exp))
+    return fails
+
+
+def same_name_helpers(R, rng, tier):
+    for it in range(6 if tier == 'quick' else 80):
+        spec = random_spec(rng) if it % 2 else {'sig': [1, 1, 1, 0][:rng.choice((2, 3, 4))], 'start': None}
+        alg = algs.make_impl(spec)
+        canon = [int(k) for k in alg.canon2bin.values()]
+        ks = rng.sample(canon, min(len(canon), rng.randint(2, 3)))
+        vals = [float(rng.randint(1, 5)) for _ in ks]
+        order = [(rng.choice(['g2', 'g3', 'h2', 'h3']), rng.random() < 0.3) for _ in range(8)]
+        order = [('g2', False), ('g3', False), ('g2', False), ('h2', False), ('h3', False), ('h2', False)] + order
+        R.count('route=same-name-helpers'); R.case(('same-name-helpers', it, repr(spec), tuple(ks)), True)
+        for step, label, got, exp in helper_scenario(spec, ks, vals, order)[:1]:
+            R.violation({'clause': 'same-name-helpers', 'route': 'register'},
+                        {'algebra': spec, 'helpers': True, 'keys': ks, 'values': vals, 'order': order},
+                        f'call {step} of the history {[l for l, _ in order]} in Algebra({algs.describe(spec)}): the registered function {label} (which uses a registered '
+                        f'helper that shares its __name__ with another helper) returns {got}, the plain python function gives {exp} for x = {list(zip(ks, vals))}'[:700])
+
+
 def run(R, tier):
     warnings.filterwarnings('ignore')
     rng = R.rng
@@ -529,6 +580,7 @@ def run(R, tier):
         return algcache[key]
 
     probes(R)
+    same_name_helpers(R, rng, tier)
     quick = tier == 'quick'
     # 1. every one-level form, 2. two-level trees over the reduced operand set
     specs = SPECS_QUICK[:4] if quick else SPECS_QUICK + [random_spec(rng) for _ in range(12)]
@@ -583,6 +635,8 @@ def replay(R, rec):
     route = rec.get('class', {}).get('route', 'register')
     alg = algs.make_impl(r['algebra'])
     env = make_env(alg)
+    if r.get('helpers'):
+        return not helper_scenario(r['algebra'], list(r['keys']), list(r['values']), [tuple(o) for o in r['order']])
     if 'lambda' in r:
         a = oc.make_mv(alg, [k for k, _ in r['operands'][0]], [v for _, v in r['operands'][0]])
         return run_one(lambda x: x * x, [a], 'register', alg)[0] == 'ok'
